@@ -9,6 +9,7 @@ import (
 	"bytes"
 	"errors"
 	"fmt"
+	"io"
 	"runtime"
 	"sort"
 	"sync"
@@ -19,6 +20,17 @@ import (
 )
 
 var ErrInjected = errors.New("refstore: injected storage fault")
+
+// ErrInjectedEOF is an injected fault that is ErrInjected and also is io.EOF (errors.Is holds
+// for both): a storage may well report "unexpected end of stream" with io.EOF in its chain, and
+// a library must not take that for the end of the data.
+var ErrInjectedEOF error = eofFault{}
+
+type eofFault struct{}
+
+func (eofFault) Error() string   { return "refstore: injected storage fault (connection closed: EOF)" }
+func (eofFault) Unwrap() []error { return []error{ErrInjected, io.EOF} }
+
 var ErrBudget = errors.New("refstore: storage call budget exceeded")
 
 type Op byte
@@ -63,11 +75,12 @@ type Store struct {
 	calls int
 
 	// fault injection / budget
-	FailAt      int  // index of the call to fail; -1 = none
-	Faulted     bool // the fault fired
-	AfterFault  int  // calls attempted after the fault fired
-	Transient   bool // only the FailAt call fails; later calls succeed (still counted in AfterFault)
-	MaxCalls    int  // 0 = unlimited
+	FailAt      int   // index of the call to fail; -1 = none
+	Faulted     bool  // the fault fired
+	AfterFault  int   // calls attempted after the fault fired
+	Transient   bool  // only the FailAt call fails; later calls succeed (still counted in AfterFault)
+	FaultErr    error // the error the FailAt call returns (nil = ErrInjected)
+	MaxCalls    int   // 0 = unlimited
 	OverBudget  bool
 	NoLog       bool // do not keep events (C19 stress)
 	JitterSeed  uint64
@@ -220,6 +233,9 @@ func (s *Store) enter(op Op) (int, error) {
 	}
 	if s.FailAt >= 0 && idx == s.FailAt {
 		s.Faulted = true
+		if s.FaultErr != nil {
+			return idx, s.FaultErr
+		}
 		return idx, ErrInjected
 	}
 	if s.MaxCalls > 0 && s.calls > s.MaxCalls {
